@@ -176,7 +176,7 @@ def gen_c04(rng, tier):
         frames += [w.fip(v6, 58 if v6 else 1, (icmp6(128, 0, struct.pack('>HH', i, 0xffff) + b'\x00\x01', *w.addrs(True)) if v6 else icmp(8, 0, struct.pack('>HH', i, 0xffff) + b'\x00\x01')))
                    for i in range(0, 65536, 5) for v6 in (False, True)]
         cases.append(case(w, frames, ['checksum-sweep']))
-    return cases
+    return cases + gen_sticky(rng, tier)
 
 
 def stun_sweep_frames(rng, w, dports=(3478, 65535, 0), flagset=None):
@@ -215,7 +215,7 @@ def gen_c03(rng, tier):
     for selfmode in (True, False):
         w = World(rng, selfmode=selfmode, denymode=False)
         cases.append(case(w, stun_sweep_frames(rng, w), ['stun-change-request-sweep', 'self-list' if selfmode else 'no-self-list']))
-    return cases
+    return cases + gen_sticky(rng, tier)
 
 
 def gen_c02(rng, tier):
@@ -308,7 +308,7 @@ def gen_c06(rng, tier):
             frames += [mk(s, d, sport, dport), mk(s, d2, sport, dport), mk(s, d, sport, dport), mk(s2, d, sport, dport),
                        mk(s, d, sport ^ 1, dport), mk(s, d, sport, dport ^ 1), mk(s, d, sport, dport)]
         cases.append(case(w, frames, ['syn-retransmit', 'syn-sweep']))
-    return cases
+    return cases + gen_sticky(rng, tier, n=(40 if tier == 'quick' else 1000))
 
 
 def gen_flows(rng, tier, nflows=4, steps=60):
@@ -382,6 +382,96 @@ def gen_flows(rng, tier, nflows=4, steps=60):
     return cases
 
 
+def pad60(frames):
+    """short frames padded with zeros to the 60-byte Ethernet minimum, as a NIC delivers them"""
+    return [f + bytes(60 - len(f)) if len(f) < 60 else f for f in frames]
+
+
+def gen_sticky(rng, tier, n=None):
+    """one TCP connection that lives on after its first request: SYN, a complete valid request of one protocol (answered: the
+    flow now owns a control block with a sticky protocol id and a reset parser), then follow-ups on the same 4-tuple --
+    empty lines, single bytes, the request again, another protocol's request, a request cut in two, long unanswered data,
+    and control segments (SYN, FIN|ACK with / without data, RST with sequence numbers at / inside / outside the receive
+    window, bare ACK, data behind a wrong acknowledgement). Every third case has its short frames padded to 60 bytes."""
+    cases = []
+    n = n or (80 if tier == 'quick' else 2000)
+    kinds = ['http', 'rpc', 'ssh', 'ghost', 'smb1', 'smb2', 'stun', 'stun-change-port', 'http', 'junk']
+    M = 0xffffffff
+    for i in range(n):
+        w = World(rng, selfmode=rng.chance(1, 2), denymode=False, key=rng.choice([(0, 0), (rng.next(), rng.next())]))
+        v6, second = rng.chance(1, 2), rng.chance(1, 4)
+        sport, dport = rng.u16(), rng.choice([80, 22, 111, 445, 3478, rng.u16(), rng.u16()])
+        st = {'seq': rng.choice([rng.u32(), 0xffffff00 + rng.below(256), rng.below(64)])}
+        kind = kinds[i % len(kinds)]
+        chg = gen.stun_attr(3, struct.pack('>I', 2)) + gen.stun_attr(0x8022, bytes(252))
+        mk = {'http': lambda: gen.gen_http(rng), 'rpc': lambda: gen.gen_rpc(rng, True), 'ssh': lambda: gen.gen_ssh(rng),
+              'ghost': lambda: gen.gen_ghost(rng), 'smb1': lambda: gen.gen_smb1(rng), 'smb2': lambda: gen.gen_smb2(rng),
+              'stun': lambda: gen.gen_stun_long(rng),
+              'stun-change-port': lambda: b'\x00\x01' + struct.pack('>H', len(chg)) + b'\x21\x12\xa4\x42' + rng.bytes(12) + chg,
+              'junk': lambda: rng.bytes(1 + rng.below(30))}
+        first = mk[kind]()
+        frames = []
+
+        def data(pl, flags=0x18, ackdelta=1):
+            frames.append(w.data_frame(v6, sport, dport, st['seq'], pl, flags=flags, ackdelta=ackdelta, second=second))
+            st['seq'] = (st['seq'] + len(pl)) & M
+
+        def ctl(flags, seq=None, pl=b''):
+            s_, d_ = w.addrs(v6, second)
+            ack = rng.choice([(w.cookie(s_, d_, sport, dport) + 1) & M, rng.u32(), 0])
+            frames.append(w.tcp_frame(v6, sport, dport, st['seq'] if seq is None else seq & M, ack, flags, pl, second=second))
+
+        if rng.chance(2, 3):
+            ctl(0x02, seq=st['seq'] - 1)
+        data(first)
+        for _ in range(2 + rng.below(7)):
+            k = rng.below(16)
+            if k == 0:
+                data(b'\r\n')
+            elif k == 1:
+                data(rng.choice([b'\n', b'\r', b'\x00', b' ', b'\r\n\r\n', rng.bytes(1)]))
+            elif k == 2:
+                data(first)
+            elif k == 3:
+                data(mk[rng.choice(['http', 'rpc', 'ssh', 'ghost', 'smb1', 'smb2', 'stun'])]())
+            elif k == 4:
+                data(mk[kind if kind != 'stun-change-port' else 'stun']())
+            elif k == 5:
+                for _ in range(3):
+                    data(rng.choice([b'x' * 4000, rng.bytes(4000), b'\x00' * 4000]))
+            elif k == 6:
+                ctl(rng.choice([0x02, 0x02, 0x42, 0xc2, 0x0a]), seq=rng.u32(), pl=rng.choice([b'', b'', b'x']))
+            elif k == 7:
+                ctl(0x11)
+            elif k == 8:
+                ctl(0x11, pl=rng.choice([b'x', mk['http'](), first]))
+            elif k == 9:
+                ctl(rng.choice([0x04, 0x04, 0x14]), seq=st['seq'] + rng.choice([0, 1, 2, 17, 1000, 65534, 65535, 65536, 70000, -1, -2, rng.u32()]))
+            elif k == 10:
+                ctl(0x10)
+            elif k == 11:
+                data(mk['http'](), ackdelta=rng.choice([2, 0, 0x80000000]))
+            elif k == 12:
+                data(rng.choice([b'\r\n', b'\n', b'\x00']) + mk[kind if kind != 'stun-change-port' else 'stun']())
+            elif k == 13:
+                pl = mk[kind if kind not in ('stun-change-port', 'junk') else 'http']()
+                if len(pl) > 2:
+                    cut = 1 + rng.below(len(pl) - 1)
+                    data(pl[:cut])
+                    if rng.chance(1, 3):
+                        ctl(0x10)
+                    data(pl[cut:])
+            elif k == 14:
+                # the cookie-less 20-byte binding request (only a flow already identified as STUN hands it to the responder)
+                data(b'\x00\x01\x00\x00' + rng.bytes(16))
+            else:
+                data(mk['stun-change-port']())
+        if i % 3 == 0:
+            frames = pad60(frames)
+        cases.append(case(w, frames, ['sticky-flow', 'first:' + kind] + (['eth-padded'] if i % 3 == 0 else [])))
+    return cases
+
+
 def gen_reuse(rng, tier, n=None):
     """a single 4-tuple (or two) living through several connections: complete requests of different
     protocols, SYNs, FINs, RSTs in sequence — exercises stale per-flow state"""
@@ -417,7 +507,7 @@ def gen_reuse(rng, tier, n=None):
 
 
 def gen_c09(rng, tier):
-    cases = gen_flows(rng, tier, nflows=6, steps=(150 if tier == 'quick' else 400))
+    cases = gen_flows(rng, tier, nflows=6, steps=(150 if tier == 'quick' else 400)) + gen_sticky(rng, tier)
     # SYN flood + wrong-ack flood
     for _ in range(2 if tier == 'quick' else 20):
         w = World(rng, selfmode=False, denymode=False)
@@ -513,7 +603,7 @@ def gen_c01(rng, tier):
                     cases.append(case(w, hostile_frames(rng, w, per) + probe_frames(w), ['hostile', 'logger:' + lg, 'level:' + lv]))
     # flow-reuse histories: a few 4-tuples that see SYN / data of different protocols / FIN / RST in sequence
     # (stale per-flow parser state, poisoned-mutex cascades)
-    for fc in gen_flows(rng, tier, nflows=3, steps=80)[: (40 if tier == 'quick' else 1000)] + gen_reuse(rng, tier):
+    for fc in gen_flows(rng, tier, nflows=3, steps=80)[: (40 if tier == 'quick' else 1000)] + gen_reuse(rng, tier) + gen_sticky(rng, tier):
         cfg = fc['ops'][0][1]
         cfg['logger'] = rng.choice(LOGGERS)
         cfg['level'] = rng.choice(LEVELS)
@@ -547,6 +637,10 @@ def gen_c20(rng, tier):
                 frames.append(f)
                 tags.update(t)
         cases.append(case(w, frames, sorted(tags)))
+    for fc in gen_sticky(rng, tier, n=(30 if tier == 'quick' else 600)):
+        fc['ops'][0][1]['logger'] = rng.choice(['console', 'logfmt'])
+        fc['tags'].append('logger:' + fc['ops'][0][1]['logger'])
+        cases.append(fc)
     return cases
 
 
@@ -851,7 +945,7 @@ PROPS = {
                      'Neighbour Solicitations (handled/unhandled target, options, truncated); non-trivial = frame for which C05 prescribes an answer or silence'),
     'C06': dict(gen=gen_c06, judge='C06', proj=proj_headers, release=True,
                 rule='all 512 flag words x boundary sequence numbers x IPv4/IPv6 x with/without payload after a non-empty history; non-trivial = delivered segment with SYN set'),
-    'C07': dict(gen=gen_flows, judge='C07', proj=proj_headers, release=True,
+    'C07': dict(gen=lambda rng, tier: gen_flows(rng, tier) + gen_sticky(rng, tier), judge='C07', proj=proj_headers, release=True,
                 rule='scripted interleavings of 1-4 flows (right/wrong/zero ack, wrap-around, FIN, RST, ACK, noise); non-trivial = segment delivered to TCP and compared with the reference connection model'),
     'C09': dict(gen=gen_c09, judge='C09', proj=lambda r: None, table=True,
                 rule='hostile histories (SYN floods, wrong-ack data, FIN/RST/ACK, UDP/ICMP/ARP noise) with a table-size probe after every frame; non-trivial = frame delivered to TCP'),
@@ -1126,7 +1220,7 @@ def explore(prop, pd, tier, seed, replay=None):
             if o[0] not in ('F', 'A', 'S'):
                 continue
             if i >= len(c['impl']):
-                violations.append({'clause': 'implementation process died', 'ops': [op_to_json(x) for x in c['ops'][:i + 1]], 'tags': c['tags']})
+                violations.append({'clause': ('implementation did not return from this op (killed after %d s): processing does not terminate' % lib.HUNG[-1]) if lib.HUNG else 'implementation process died', 'panic': True, 'ops': [op_to_json(x) for x in c['ops'][:i + 1]], 'tags': c['tags']})
                 break
             evaluations += 1
             a = c['impl'][i]
